@@ -3,6 +3,7 @@
 From Coq Require Import List ZArith QArith Qabs Bool Arith.
 Import ListNotations.
 Require Import DTS.Base.RangeZ DTS.Base.Dyadic DTS.Base.WLS DTS.Gen.GenFromI DTS.Model.Layout DTS.Model.Design.
+Require DTS.Proofs.OrderP.
 Require Import DTS.Corr.WlsC DTS.Proofs.WlsCP DTS.Proofs.CovP DTS.Proofs.DesignP DTS.Proofs.ScatterP DTS.Proofs.DesignDEP.
 
 Notation qrows := (list (row (P:=param))).
@@ -62,6 +63,11 @@ Theorem C02_residual_test_sound e rows p cols : normal_ok e rows p cols = true -
   forall a, In a cols -> (Qabs (Ga param_eqb (map qrow rows) (qpar p) a) <= Qpower 2 e * D2Q (dSa rows p a))%Q.
 Proof. exact (normal_ok_sound e rows p cols). Qed.
 
+(* the double-ended observations and weights are flattened alike in the current source (Gen/GenOrder.v, regenerated): no counterpart of F1 *)
+Theorem C02_observations_and_weights_are_flattened_alike :
+  DTS.Proofs.OrderP.de_orders = (DTS.Proofs.OrderP.x_major, DTS.Proofs.OrderP.x_major, DTS.Proofs.OrderP.x_major, DTS.Proofs.OrderP.x_major).
+Proof. exact DTS.Proofs.OrderP.de_orders_as_coded. Qed.
+
 (* the covariance judge for rank-deficient systems (splices): a `true` verdict bounds every entry of (n-p) N C N - SSR N over Q ... *)
 Theorem C02_covariance_test_sound e ef rows p cols cov : cov_ok_g e ef rows p cols cov = true ->
   let dof := inject_Z (Z.of_nat (length rows) - Z.of_nat (length cols)) in
@@ -90,3 +96,4 @@ Print Assumptions C02_scatter_positions. Print Assumptions C02_scatter_positions
 Print Assumptions C02_scatter_injective. Print Assumptions C02_scatter_before_repair_refuted. Print Assumptions C02_null_space_with_splice.
 Print Assumptions C02_alpha_outside_is_weighted_mean. Print Assumptions C02_residual_test_sound.
 Print Assumptions C02_covariance_test_sound. Print Assumptions C02_estimable_variances_are_determined.
+Print Assumptions C02_observations_and_weights_are_flattened_alike.
